@@ -179,7 +179,12 @@ func (self LetStatement) String() string {
 		optType = fmt.Sprintf(": %s", self.OptType)
 	}
 
-	return fmt.Sprintf("let %s%s = %s;", self.Ident, optType, self.Expression)
+	pub := ""
+	if self.IsPub {
+		pub = "pub "
+	}
+
+	return fmt.Sprintf("%slet %s%s = %s;", pub, self.Ident, optType, self.Expression)
 }
 
 //
